@@ -373,16 +373,19 @@ type statusBackend struct {
 	maxIn    atomic.Int32
 	served   atomic.Int32
 	nextID   *atomic.Int64
+	stamp    *atomic.Int64 // shared event counter (request-read events and resets)
 	mu       sync.Mutex
-	ids      map[int]bool
+	ids      map[int]int64                 // id -> stamp taken when the backend had read that status request
+	hold     atomic.Pointer[chan struct{}] // when set: signal arrival, answer only after it is closed
+	arrived  chan struct{}
 }
 
 func statusJSON(marker string) string {
 	return `{"version":{"name":"ref","protocol":765},"players":{"max":10,"online":1},"description":{"text":"` + marker + `"}}`
 }
 
-func newStatusBackend(nextID *atomic.Int64) (*statusBackend, error) {
-	sb := &statusBackend{nextID: nextID, ids: map[int]bool{}}
+func newStatusBackend(nextID, stamp *atomic.Int64) (*statusBackend, error) {
+	sb := &statusBackend{nextID: nextID, stamp: stamp, ids: map[int]int64{}, arrived: make(chan struct{}, 256)}
 	var err error
 	sb.b, err = litefwd.Listen(0, func(c net.Conn, idx int) {
 		defer c.Close()
@@ -411,6 +414,7 @@ func newStatusBackend(nextID *atomic.Int64) (*statusBackend, error) {
 		}
 		// a status request is "in flight" from the moment the backend has read it until
 		// the backend has written its answer
+		readStamp := sb.stamp.Add(1)
 		n := sb.inflight.Add(1)
 		for {
 			m := sb.maxIn.Load()
@@ -421,9 +425,19 @@ func newStatusBackend(nextID *atomic.Int64) (*statusBackend, error) {
 		if d := sb.delay.Load(); d > 0 {
 			time.Sleep(time.Duration(d))
 		}
+		if h := sb.hold.Load(); h != nil {
+			select {
+			case sb.arrived <- struct{}{}:
+			default:
+			}
+			select {
+			case <-*h:
+			case <-time.After(15 * time.Second):
+			}
+		}
 		id := int(sb.nextID.Add(1))
 		sb.mu.Lock()
-		sb.ids[id] = true
+		sb.ids[id] = readStamp
 		sb.mu.Unlock()
 		js := statusJSON("ID-" + strconv.Itoa(id))
 		p := litefwd.AppendVarInt(nil, 0)
@@ -493,10 +507,10 @@ func markerOf(status string) string {
 
 func partB(r *lib.Run) {
 	rng := r.Rng("fallback")
-	var nextID atomic.Int64
+	var nextID, stamp atomic.Int64
 	var sbs []*statusBackend
 	for i := 0; i < 3; i++ {
-		sb, err := newStatusBackend(&nextID)
+		sb, err := newStatusBackend(&nextID, &stamp)
 		if err != nil {
 			r.Inconclusive("cannot listen on loopback: " + err.Error())
 			return
@@ -512,7 +526,7 @@ func partB(r *lib.Run) {
 	defer refused.Release()
 
 	n := r.N(160, 3000)
-	var fallbackUsed, backendAnswered, errorsNoFallback, cachedServed, bursts int
+	var fallbackUsed, backendAnswered, errorsNoFallback, cachedServed, bursts, e2eResets int
 	for i := 0; i < n; i++ {
 		lite.ResetPingCache()
 		nb := 1 + rng.Intn(4)
@@ -618,23 +632,88 @@ func partB(r *lib.Run) {
 			lite.ResetPingCache()
 			rt := config.Route{Host: []string{"*"}, Backend: []string{fmt.Sprintf("127.0.0.1:%d", sb.b.Port)}}
 			g := 2 + rng.Intn(12)
-			var wg sync.WaitGroup
-			results := make([]statusResult, g)
-			for k := 0; k < g; k++ {
-				wg.Add(1)
-				go func(k int) {
-					defer wg.Done()
-					results[k] = resolve([]config.Route{rt}, sm, 765, uint64(1000000+i))
-				}(k)
+			burst := func(gen uint64) (maxIn int32, served int32) {
+				sb.maxIn.Store(0)
+				before := sb.served.Load()
+				lite.ResetPingCache()
+				var wg sync.WaitGroup
+				for k := 0; k < g; k++ {
+					wg.Add(1)
+					go func() {
+						defer wg.Done()
+						resolve([]config.Route{rt}, sm, 765, gen)
+					}()
+				}
+				wg.Wait()
+				return sb.maxIn.Load(), sb.served.Load() - before
 			}
-			wg.Wait()
+			m, served := burst(uint64(1000000 + i))
 			r.Eval(1)
 			bursts++
-			if m := sb.maxIn.Load(); m > 1 {
-				r.Violation("two-status-connections-in-flight", "with the ping cache on, concurrent status requests for one (backend, protocol, generation) opened more than one status connection at a time", map[string]any{"concurrent_requests": g, "max_connections_in_flight": m})
+			if m > 1 {
+				// A broken single-flight shows on every burst. Repeat twice on fresh keys and
+				// only report what reproduces; a one-off overlap is recorded as inconclusive.
+				m2, served2 := burst(uint64(3000000 + 2*i))
+				m3, served3 := burst(uint64(3000001 + 2*i))
+				w := map[string]any{"concurrent_requests": g, "max_connections_in_flight": []int32{m, m2, m3}, "status_requests_answered_per_burst": []int32{served, served2, served3}}
+				if m2 > 1 || m3 > 1 {
+					r.Violation("two-status-connections-in-flight", "with the ping cache on, concurrent status requests for one (backend, protocol, generation) opened more than one status connection at a time", w)
+				} else {
+					r.Inconclusive(fmt.Sprintf("one burst showed %d status requests in flight at once but two repeats showed 1: %v", m, w))
+				}
+			}
+			r.Distinct(fmt.Sprintf("burst|%d|%d", g, i))
+
+			// (a) end to end: a request is in flight at the backend, ResetPingCache returns,
+			// then a second request for the same key starts: it must not be answered with
+			// the status whose request the backend had read before the reset.
+			lite.ResetPingCache()
+			gen := uint64(2000000 + i)
+			sb.delay.Store(0)
+			for len(sb.arrived) > 0 {
+				<-sb.arrived
+			}
+			hold := make(chan struct{})
+			sb.hold.Store(&hold)
+			first := make(chan statusResult, 1)
+			go func() { first <- resolve([]config.Route{rt}, sm, 765, gen) }()
+			okIn, _ := lib.Returns(20*time.Second, func() { <-sb.arrived })
+			if !okIn {
+				sb.hold.Store(nil)
+				close(hold)
+				f := <-first
+				r.Inconclusive(fmt.Sprintf("the first status request was not seen in flight at the backend (done=%v err=%v)", f.done, f.err))
+			} else {
+				lite.ResetPingCache()
+				resetStamp := stamp.Add(1)
+				secondCh := make(chan statusResult, 1)
+				go func() { secondCh <- resolve([]config.Route{rt}, sm, 765, gen) }()
+				// correct code opens a second status connection now (the first is still held);
+				// wait for it, or a short grace if the request joined the stale flight instead
+				select {
+				case <-sb.arrived:
+				case <-time.After(100 * time.Millisecond):
+				}
+				sb.hold.Store(nil)
+				close(hold)
+				second := <-secondCh
+				<-first
+				r.Eval(1)
+				e2eResets++
+				if id, err := strconv.Atoi(strings.TrimPrefix(markerOf(second.status), "ID-")); err == nil {
+					sb.mu.Lock()
+					st, known := sb.ids[id]
+					sb.mu.Unlock()
+					if known && st < resetStamp {
+						r.Violation("status-from-before-reset", "a status request that started after ResetPingCache returned was answered with the status of a backend request that was already in flight before the reset [e2e]",
+							map[string]any{"status": second.status, "backend_read_request_at_stamp": st, "reset_returned_at_stamp": resetStamp})
+					}
+				} else {
+					r.Inconclusive("post-reset status request returned no backend status")
+				}
+				r.Distinct(fmt.Sprintf("e2e-reset|%d", i))
 			}
 			sb.delay.Store(0)
-			r.Distinct(fmt.Sprintf("burst|%d|%d", g, i))
 		}
 	}
 	r.Set("b_fallback_used", fallbackUsed)
@@ -642,6 +721,7 @@ func partB(r *lib.Run) {
 	r.Set("b_errors_without_fallback", errorsNoFallback)
 	r.Set("b_repeat_requests_served_within_case", cachedServed)
 	r.Set("b_bursts", bursts)
+	r.Set("b_reset_while_in_flight_scenarios", e2eResets)
 }
 
 // ---- the test -----------------------------------------------------------------------------------------------------
